@@ -15,7 +15,7 @@ func init() {
 	register(&Check{
 		ID:          "C02",
 		Run:         runC02,
-		Explanation: "Decides the code-shape clauses that make replacement atomic under POSIX rename: (R1 WMC) no function outside the staging-layer table opens an existing path for writing, truncates it or writes at an offset (os.Create, os.WriteFile, os.Truncate, OpenFile with O_TRUNC or with a write flag and without O_EXCL, WriteAt); (R2 MPT) in each publisher (stagedOutput.commit, pdfcpu.finishStagedFile, cli streamInOutFinalizer.finalize, api.writeCutOutputWith, font.writeGobWithOperations) every rename is preceded on every path by the close of the staged output and is only reached on the nil edge of an error value that depends on that close result (so a failed close never publishes), and every function that installs a bufio.Writer on the write context flushes it with the flush error flowing into its result before returning (api.WriteContext, api.WriteIncrement wrapper, writeAndFlushCutContext) or, for pdfcpu.WriteContext's own staged file, passes setFileSizeOfWrittenFile (which flushes) on every success path; (R3) every temp file that is later renamed over a destination is created in filepath.Dir(destination) with a name built as \".\"+filepath.Base(destination)+suffix — same directory (rename stays inside one filesystem) and hidden. Together: at every prefix of the filesystem-call sequence the destination holds either the complete old or the complete new content and any leftover is a hidden sibling. NOT decided: kernel rename atomicity (assumed), power loss ordering (C07), Windows rename semantics, the documented in-place incremental writers (incr=true) and PatchFile, which do not replace a file.",
+		Explanation: "Decides the code-shape clauses that make replacement atomic under POSIX rename: (R1 WMC) no function outside the staging-layer table opens an existing path for writing, truncates it or writes at an offset (os.Create, os.WriteFile, os.Truncate, OpenFile with O_TRUNC or with a write flag and without O_EXCL, WriteAt); (R2 MPT) in each publisher (stagedOutput.commit, pdfcpu.finishStagedFile, cli streamInOutFinalizer.finalize, api.writeCutOutputWith, font.writeGobWithOperations) every rename is preceded on every path by the close of the staged output and is only reached on the nil edge of an error value that depends on that close result (so a failed close never publishes), and every function that installs a bufio.Writer on the write context flushes it with the flush error flowing into its result before returning (api.WriteContext, api.WriteIncrement wrapper, writeAndFlushCutContext) or, for pdfcpu.WriteContext's own staged file, passes setFileSizeOfWrittenFile (which flushes) on every success path; (R3) every temp file that is later renamed over a destination is created in filepath.Dir(destination) with a name built as \".\"+filepath.Base(destination)+suffix — same directory (rename stays inside one filesystem) and hidden. Together: at every prefix of the filesystem-call sequence the destination holds either the complete old or the complete new content and any leftover is a hidden sibling. (R5 flag) a deferred publish (commit / finishWriteFile / finalize) is keyed on a completion flag set after the last call that can fail or panic, never on the error variable: after a panic the error is still nil and a half-written staging file would be renamed over the destination (same analysis as C01.R2, run here because the result is a destination that is neither the old nor the new content). NOT decided: kernel rename atomicity (assumed), power loss ordering (C07), Windows rename semantics, the documented in-place incremental writers (incr=true) and PatchFile, which do not replace a file.",
 		Rules: []string{
 			"C02.R1 WMC: in-place write primitives only in the staging layer table",
 			"C02.R2 MPT: write -> flush -> close -> rename order in every publisher; failed close never publishes",
